@@ -26,27 +26,27 @@ EPS = np.finfo(float).eps
 KEY_PER = 'periodic-axis-unequal-end-cells'
 
 
-def bc_for(rng, g, cls, allow_periodic=True):
+def bc_for(rng, g, cls, allow_periodic=True, positive=False):
     capable = [k for k in range(g.nd) if AXKIND[cls][k] in ('len', 'ang')]
     per = [k for k in capable if allow_periodic and rng.random() < 0.3]
     spec = {'periodic': per, 'sides': {}}
-    dvals = []
+    dvals = {}
     for k in range(g.nd):
         for side in SIDES[k]:
             sh = g.side_shape(k)
             if rng.random() < 0.5:
-                c = rng.normal(0, 1, sh) if rng.random() < 0.7 else np.abs(rng.normal(0, 1, sh))
+                c = rng.normal(0, 1, sh) if (rng.random() < 0.7 and not positive) else np.abs(rng.normal(0, 1, sh))
                 lam = float(rng.choice([1.0, 2.0, -1.0]))
                 spec['sides'][side] = {'kind': 'D', 'a': np.zeros(sh), 'b': np.ones(sh) * lam, 'c': c * lam}
                 if k not in per:
-                    dvals.append(c.ravel())
+                    dvals[side] = c.ravel()
             else:
                 spec['sides'][side] = {'kind': 'N0', 'a': np.ones(sh), 'b': np.zeros(sh), 'c': np.zeros(sh)}
-    return spec, (np.concatenate(dvals) if dvals else np.array([]))
+    return spec, dvals
 
 
-def flow_for(rng, g, m, spec):
-    fam = str(rng.choice(['none', 'uniform', 'radial', 'stream-walls', 'stream-open', 'stream-walls', 'axis', 'axis']))
+def flow_for(rng, g, m, spec, fams=('none', 'uniform', 'radial', 'stream-walls', 'stream-open', 'stream-walls', 'axis', 'axis')):
+    fam = str(rng.choice(list(fams)))
     per = spec['periodic']
     u = None
     if fam == 'uniform':
@@ -90,12 +90,22 @@ def run_case(case):
     cls = case['cls']
     nd = NDIM[cls]
     fam = case.get('family')
-    faces, meta = gen.gen_grid(rng, cls, nmin=1, nmax=case.get('nmax', 6 if nd < 3 else 4), family=fam)
+    thin = bool(case.get('thin'))
+    n = None
+    if thin:
+        # a single cell along one axis (both of its faces are boundary faces), through-flow, strictly positive data: a
+        # spurious sink or source in that cell leaves the admissible range immediately
+        n = [int(rng.integers(1, 6 if nd < 3 else 4)) for _ in range(nd)]
+        n[int(rng.integers(0, nd))] = 1
+    faces, meta = gen.gen_grid(rng, cls, nmin=1, nmax=case.get('nmax', 6 if nd < 3 else 4), family=fam, n=n)
     g = Geom(cls, faces)
     m = gen.build_mesh(pf, cls, faces)
-    spec, dvals = bc_for(rng, g, cls)
+    spec, dvals = bc_for(rng, g, cls, positive=thin)
     cov, maxerr, bad = {}, {}, []
-    u, flowfam = flow_for(rng, g, m, spec)
+    u, flowfam = flow_for(rng, g, m, spec, fams=('uniform', 'axis', 'radial', 'axis') if thin else
+                          ('none', 'uniform', 'radial', 'stream-walls', 'stream-open', 'stream-walls', 'axis', 'axis'))
+    if thin:
+        cov['thin_grid'] = 1
     dive = ops.discrete_div_error(m, g, u)
     D, _ = gen.face_arrays(rng, g, str(rng.choice(['sign', 'random'])), positive=True)
     if rng.random() < 0.3:
@@ -107,10 +117,12 @@ def run_case(case):
         tset = 'upwind'
     use_beta = rng.random() < 0.35
     beta = np.abs(rng.normal(0, 1, g.dims)) * 10 ** rng.uniform(-2, 2) if use_beta else None
-    ffam = str(rng.choice(['random', 'step', 'spike', 'positive', 'poszeros']))
+    ffam = str(rng.choice(['random', 'step', 'spike', 'positive', 'poszeros'])) if not thin else str(rng.choice(['positive', 'posconst']))
     if ffam == 'poszeros':
         vals = np.abs(rng.normal(0, 1, g.dims))
         vals[rng.random(g.dims) < 0.5] = 0.0
+    elif ffam == 'posconst':
+        vals = np.full(g.dims, float(np.exp(rng.normal())))
     else:
         vals, _ = gen.cell_field(rng, g.dims, ffam)
     # preconditions re-verified from the observed objects
@@ -120,6 +132,7 @@ def run_case(case):
     BC = gen.make_bc(pf, m, g, spec)
     phi = pf.CellVariable(m, vals.copy(), BC)
     Df, uf = gen.facevar(pf, m, D), gen.facevar(pf, m, u)
+    edit_bcs = bool(rng.random() < 0.5)
     rebuild = bool(rng.random() < 0.7)       # terms rebuilt every step from the same coefficient objects (typical time loop) or built once
     Mdiff = -pf.diffusionTerm(Df)
     Mconv = pf.convectionUpwindTerm(uf) if 'upwind' in tset else None
@@ -136,6 +149,32 @@ def run_case(case):
             alpha = float(10 ** rng.uniform(-1, 1))
             dts.append(dt)
             prev = np.array(phi.value, copy=True)
+            if step > 0 and edit_bcs and rng.random() < 0.6:
+                # boundary data switched between steps through the public setters (a feed turned on or off, a wall opened)
+                ke = int(rng.integers(0, g.nd))
+                if ke not in spec['periodic']:
+                    side_e = SIDES[ke][int(rng.integers(0, 2))]
+                    cand = [s_ for s_ in dvals if s_ in SIDES[ke]]
+                    if cand and rng.random() < 0.7:
+                        side_e = str(rng.choice(cand))          # prefer a side that currently carries Dirichlet data
+                    fe = getattr(phi.BCs, side_e)
+                    how = str(rng.choice(['fixedValue', 'c', 'noflux']))
+                    if how == 'noflux':
+                        fe.defaultNoFlux()
+                        dvals.pop(side_e, None)
+                    elif how == 'c' and side_e in dvals:
+                        newc = np.broadcast_to(np.asarray(dvals[side_e]) if np.size(dvals[side_e]) == 1 else np.asarray(dvals[side_e]).reshape(np.shape(fe.c)), np.shape(fe.c)) * float(rng.choice([0.0, 0.5, -1.0])) + float(rng.choice([0.0, 1.0]))
+                        fe.c = newc * np.asarray(fe.b)
+                        dvals[side_e] = newc.ravel()
+                    else:
+                        v = float(rng.choice([0.0, 1.0, -2.0, float(rng.normal())]))
+                        if rng.random() < 0.5:
+                            v = float(np.median(prev))         # the old boundary value is then (typically) outside the new admissible range
+                        if thin:
+                            v = abs(v)
+                        fe.fixedValue(v)
+                        dvals[side_e] = np.array([v])
+                    cov['bc_edit_between_steps:' + side_e] = cov.get('bc_edit_between_steps:' + side_e, 0) + 1
             if rebuild and step > 0:
                 Mdiff = -pf.diffusionTerm(Df)
                 Mconv = pf.convectionUpwindTerm(uf) if 'upwind' in tset else None
@@ -150,7 +189,7 @@ def run_case(case):
             new = np.asarray(phi.value)
             if not np.all(np.isfinite(new)):
                 return {'verdict': 'inconclusive', 'key': 'singular', 'msg': 'non-finite solution', 'nontrivial': False, 'cov': cov}
-            pool = np.concatenate([prev.ravel(), dvals])
+            pool = np.concatenate([prev.ravel()] + [np.asarray(v_, dtype=float).ravel() for v_ in dvals.values()])
             lo, hi = float(pool.min()), float(pool.max())
             if beta is not None:
                 lo, hi = min(lo, 0.0), max(hi, 0.0)
@@ -200,10 +239,12 @@ def run_case(case):
 
 
 def plan(tier, seed):
-    per = 30 if tier == 'quick' else 900
+    per = 60 if tier == 'quick' else 1200
     chunks = []
     for ci, cls in enumerate(CLASSES):
         cases = [{'cls': cls, 'seed': [seed, 7, ci, i], 'family': gen.FAMILIES[i % 5] if i % 3 else None} for i in range(per)]
+        if NDIM[cls] > 1:
+            cases += [{'cls': cls, 'seed': [seed, 7, ci, 100000 + i], 'family': gen.FAMILIES[i % 5] if i % 2 else None, 'thin': True} for i in range(per // 3)]
         step = 10 if NDIM[cls] == 3 else 30
         for j in range(0, len(cases), step):
             chunks.append(cases[j:j + step])
@@ -216,7 +257,9 @@ def floors(agg, tier):
         if agg['cov'].get('cases:' + cls, 0) < 20:
             out.append('cases:%s < 20' % cls)
     for k, need in (('bc:D', 50), ('bc:N0', 50), ('bc:periodic', 20), ('flow:uniform', 3), ('flow:radial', 3), ('flow:stream-walls', 10),
-                    ('flow:stream-open', 5), ('flow:axis', 10), ('terms:D', 10), ('terms:D+upwind', 10), ('extremal_dt_steps', 50), ('steps', 300)):
+                    ('flow:stream-open', 5), ('flow:axis', 10), ('terms:D', 10), ('terms:D+upwind', 10), ('extremal_dt_steps', 50), ('steps', 300), ('thin_grid', 50),
+                    ('bc_edit_between_steps:left', 5), ('bc_edit_between_steps:right', 5), ('bc_edit_between_steps:bottom', 5), ('bc_edit_between_steps:top', 5),
+                    ('bc_edit_between_steps:back', 3), ('bc_edit_between_steps:front', 3)):
         if agg['cov'].get(k, 0) < need:
             out.append('%s < %d' % (k, need))
     return out
